@@ -254,3 +254,12 @@ fn('dsplib::norm', M, sig='(const dsplib::arr_real &, int)', key='norm(arr_real,
 fn('dsplib::complex', M, sig='dsplib::arr_cmplx (const dsplib::arr_real &)', key='complex(arr_real)', serves=['C17', 'C03', 'C05'], pure=True, throws='False',
    ensures=[('length', 'result.len == re.len'),
             ('definition', 'forall(lambda k: Implies(And(0 <= k, k < re.len), And(result[k].re == re[k], result[k].im == 0)))')])
+
+fn('dsplib::arange', DRV, sig='dsplib::arr_real (int)', key='arange(int)', serves=['C17', 'C05'], pure=True,
+   requires=[('span', 'And(stop >= -1000000, stop <= 1000000)')], throws='False',
+   ensures=[('count', 'result.len == If(stop > 0, stop, 0)'),
+            ('values', 'forall(lambda k: Implies(And(0 <= k, k < result.len), result[k] == ToReal(k)))')])
+
+fn('dsplib::ones', DRV, key='ones(n)', serves=['C17', 'C05'], pure=True,
+   requires=[('size', 'n >= 0')], throws='False',
+   ensures=[('length', 'result.len == n'), ('values', 'forall(lambda k: Implies(And(0 <= k, k < n), result[k] == 1))')])
